@@ -50,20 +50,20 @@ class Universe:
 
 
 class State:
-    __slots__ = ("la", "envs", "cond")
+    __slots__ = ("la", "envs", "marks")
 
-    def __init__(self, la, envs, cond=None):
+    def __init__(self, la, envs, marks=()):
         self.la = la          # (la1, la2) frozensets
         self.envs = envs      # tuple of dicts (one per active frame: production frame + inlined helper frames)
-        self.cond = cond
+        self.marks = marks    # tuple of (origin, t1, t2, n): what is known about the two tokens after each live mark
 
     def copy(self, la=None, envs=None):
-        return State(self.la if la is None else la, self.envs if envs is None else envs)
+        return State(self.la if la is None else la, self.envs if envs is None else envs, self.marks)
 
     def bind(self, name, v):
         e = dict(self.envs[-1])
         e[name] = v
-        return State(self.la, self.envs[:-1] + (e,))
+        return State(self.la, self.envs[:-1] + (e,), self.marks)
 
     def get(self, name):
         return self.envs[-1].get(name, Val.UNK)
@@ -71,7 +71,19 @@ class State:
     def with_la(self, k, fs):
         la = list(self.la)
         la[k - 1] = fs
-        return State(tuple(la), self.envs)
+        return State(tuple(la), self.envs, self.marks)
+
+    def upd_marks(self, consumed):
+        """Record what the current look-ahead facts say about the tokens right after each live mark, then account for
+        `consumed` tokens (1 = one token, 9 = unknown many)."""
+        out = []
+        for origin, t1, t2, n in self.marks:
+            if n == 0:
+                t1, t2 = t1 & self.la[0], t2 & self.la[1]
+            elif n == 1:
+                t2 = t2 & self.la[0]
+            out.append((origin, t1, t2, min(9, n + consumed)))
+        return tuple(out)
 
 
 class Edge:
@@ -433,7 +445,12 @@ class _Run:
                 else:
                     envk.append((depth, k, _strip(v)))
         fk = tuple((id(b), i, kind) for b, i, kind, _ in frames)
-        return (fk, st.la, tuple(envk))
+        live_origins = {v[1] for _, _, v in envk if isinstance(v, tuple) and v and v[0] == "mark"}
+        for _, _, v in envk:
+            if isinstance(v, tuple) and v and v[0] == "tuple":
+                live_origins |= {x[1] for x in v[1] if isinstance(x, tuple) and x and x[0] == "mark"}
+        mk = tuple(m_ for m_ in st.marks if m_[0] in live_origins)
+        return (fk, st.la, tuple(envk), mk)
 
     def node(self, frames, st):
         k = self.key_of(frames, st)
@@ -471,7 +488,7 @@ class _Run:
             for k, v in env.items():
                 e2[k] = self._shift(v, tokv)
             envs.append(e2)
-        return State((st.la[1], self.U.all), tuple(envs)), tokv
+        return State((st.la[1], self.U.all), tuple(envs), st.upd_marks(1)), tokv
 
     def _shift(self, v, tokv):
         if v[0] == "peek":
@@ -491,7 +508,7 @@ class _Run:
         envs = []
         for env in st.envs:
             envs.append({k: self._stale(v, st) for k, v in env.items()})
-        return State((self.U.all, self.U.all), tuple(envs))
+        return State((self.U.all, self.U.all), tuple(envs), st.upd_marks(9))
 
     def _stale(self, v, st):
         if v[0] == "peek":
@@ -808,7 +825,7 @@ class _Run:
                     s2 = self.havoc(s1)
                     post = ex.ret_post.get(key)
                     if post is not None:
-                        s2 = State(post, s2.envs)
+                        s2 = State(post, s2.envs, s2.marks)
                     yield ("ret", m, sig), s2, ev1 + (("call", m, sig, s1.la, e.lineno),)
                 return
             if m in ex.token_effect:
@@ -899,14 +916,15 @@ class _Run:
             for c in cells.values():
                 fs = frozenset(c)
                 if fs == frozenset({EOF}):
-                    yield Val.NONE, State((frozenset({EOF}), frozenset({EOF})), st.envs), ()
+                    yield Val.NONE, State((frozenset({EOF}), frozenset({EOF})), st.envs, st.marks), ()
                     continue
                 fs = fs - {EOF}
                 s2, tokv = self.consume(st.with_la(1, fs), fs, e.lineno)
                 yield tokv, s2, (("consume", fs, e.lineno),)
             return
         if what == "mark":
-            yield ("mark", self.cur_node), st, (("mark", self.cur_node),)
+            marks = tuple(mk for mk in st.marks if mk[0] != self.cur_node) + ((self.cur_node, self.U.all, self.U.all, 0),)
+            yield ("mark", self.cur_node), State(st.la, st.envs, marks), (("mark", self.cur_node, getattr(self, "istack", ())),)
             return
         if what == "reset":
             for vs, s1, ev1 in self.args(e, st):
@@ -914,8 +932,11 @@ class _Run:
                 if mv[0] == "mark":
                     origin = mv[1]
                     la = getattr(self, "real_prod", self.prod).node_info[origin]["la"]
-                    s2 = State(la, tuple({k: self._stale(v, s1) for k, v in env.items()} for env in s1.envs))
-                    yield Val.NONE, s2, ev1 + (("reset", origin),)
+                    known = next((mk for mk in s1.upd_marks(0) if mk[0] == origin), None)
+                    if known is not None:
+                        la = (la[0] & known[1], la[1] & known[2])
+                    s2 = State(la, tuple({k: self._stale(v, s1) for k, v in env.items()} for env in s1.envs), s1.marks)
+                    yield Val.NONE, s2, ev1 + (("reset", origin, getattr(self, "istack", ())),)
                 else:
                     # the stream is moved to a position that is not a mark taken on this path: tokens may be skipped
                     # unparsed.  Modelled as an arbitrary jump (look-ahead unknown) and reported by R-C18.2.
@@ -994,9 +1015,9 @@ class _Run:
                     env[p] = Val.UNK
             # run the helper to completion by a local work list (helpers are small and loop-free or simple loops)
             results = []
-            sub = _Inline(self, callee, State(s1.la, s1.envs + (env,)), ev1)
+            sub = _Inline(self, callee, State(s1.la, s1.envs + (env,), s1.marks), ev1, e.lineno)
             for v, s2, ev2 in sub.run():
-                yield v, State(s2.la, s2.envs[:-1]), ev2
+                yield v, State(s2.la, s2.envs[:-1], s2.marks), ev2
             del results
 
     # -- statements ----------------------------------------------------------
@@ -1264,8 +1285,8 @@ class _Inline:
     """Runs an inlined helper to completion, sharing the caller's graph: it explores the helper's paths with an
     explicit stack and returns (value, state, events) triples; loops in helpers are bounded by state repetition."""
 
-    def __init__(self, run: _Run, fn, st, ev0):
-        self.run_, self.fn, self.st0, self.ev0 = run, fn, st, ev0
+    def __init__(self, run: _Run, fn, st, ev0, call_line=0):
+        self.run_, self.fn, self.st0, self.ev0, self.call_line = run, fn, st, ev0, call_line
 
     def run(self):
         r = self.run_
@@ -1276,6 +1297,7 @@ class _Inline:
         work = deque()
         sub = _Run(r.ex, scratch, fn, fn.args.args[0].arg, work)
         sub._psets = r.partition_sets()
+        sub.istack = getattr(r, "istack", ()) + ((fn.name, getattr(self, "call_line", 0)),)
         sub.fixed_cur = True
         sub.cur_node = r.cur_node
         sub.real_prod = getattr(r, "real_prod", r.prod)
